@@ -20,9 +20,9 @@ TECHNIQUE = {
     "C20": _T_BASE + _T_TR.format(what="the statement functions encode_spo / encode_triple / encode_quad (roll-back of the repeated terms on a refusal), the row bracket TermEncoder.start_row / end_row (when a stream refuses to go on) and the pinning logic of the lookup classes") + _T_DIFF,
     "C03": _T_BASE + _T_TR.format(what="TermEncoder.encode_iri_indices / encode_literal and the lookup classes they drive (entry rows, ids, zero forms, oneof member)") + _T_DIFF + "; the Lean reference decoder run on the real bytes",
     "C19": _T_BASE + _T_TR.format(what="the statement functions encode_spo / encode_triple / encode_quad (elision of repeated terms), TermEncoder.encode_iri_indices / encode_literal and the lookup classes (when an entry is sent, when an id is 0)") + _T_DIFF + "; row-level compression audit of the real bytes by the Lean referee",
-    "C06": _T_BASE + _T_TR.format(what="the frame-flow classes (serialize/flows.py) and the stream methods TripleStream.triple / QuadStream.quad / Stream.enroll that feed them (every encoded row reaches the flow)") + _T_DIFF,
-    "C07": _T_BASE + _T_TR.format(what="the grouped frame-flow classes (serialize/flows.py) and the stream methods TripleStream.triple / QuadStream.quad that consult them after every statement") + _T_DIFF,
-    "C11": _T_BASE + _T_TR.format(what="the bounded frame-flow classes (serialize/flows.py) and the stream methods TripleStream.triple / QuadStream.quad that consult them after every statement") + _T_DIFF,
+    "C06": _T_BASE + _T_TR.format(what="the frame-flow classes (serialize/flows.py) and the stream methods TripleStream.triple / QuadStream.quad / GraphStream.graph / Stream.enroll that feed them (every encoded row reaches the flow)") + _T_DIFF,
+    "C07": _T_BASE + _T_TR.format(what="the grouped frame-flow classes (serialize/flows.py) and the stream methods TripleStream.triple / QuadStream.quad / GraphStream.graph that consult them after every statement") + _T_DIFF,
+    "C11": _T_BASE + _T_TR.format(what="the bounded frame-flow classes (serialize/flows.py) and the stream methods TripleStream.triple / QuadStream.quad / GraphStream.graph that consult them after every statement") + _T_DIFF,
     "C08": _T_BASE + _T_TR.format(what="delimited_jelly_hint (proved equal to the model's detector for every byte string)") + _T_DIFF,
     "C12": _T_BASE + _T_TR.format(what="split_iri") + _T_DIFF + "; process / thread / hash-seed runs",
     "C13": _T_BASE + _T_TR.format(what="the validators of options.py (type compatibility for all pairs, flat, preset and version post-init) and Decoder.validate_stream_options (a later options row against the header)") + _T_DIFF,
